@@ -110,3 +110,38 @@ def c18(ctx):
                   "constraint sets sampled",
                   assumptions=["thread_rng outcomes are sampled, not enumerated; the model (MC_Sampler) enumerates every "
                                "lattice offset of the specified one-segment sampler"])
+
+
+# ----------------------------------------------------------------------------- C03
+@check("C03")
+def c03(ctx):
+    if ctx.quick:
+        consts = {"PSets": "{1, 2, 3, 4, 5}", "Angles": "{0, 1, 5, 10}"}
+    else:
+        consts = {"PSets": "{1, 2, 3, 4, 5}", "Angles": "{0, 1, 3, 5, 8, 10}"}
+    g = tlc(ctx, "Gen_Chain", constants=consts, workers=8, xmx="12g")
+    lines = tlc_json_lines(g["out"], "chain")
+    if not lines:
+        raise core.ToolError("Gen_Chain printed no behaviours")
+    write_ndjson(ctx.path("chain.ndjson"), lines)
+    opwv(ctx, ["replay", "chain", ctx.path("chain.ndjson"), ctx.path("chain.out")])
+    st = replay_results(ctx, ctx.path("chain.out"), "C03")
+    ctx.evaluations += st.get("evaluations", 0)
+    ctx.traces += len(lines)
+    for ln in lines:
+        if sum(1 for k in ln["e"] if k % 3) >= 3:
+            ctx.nontrivial.add((json.dumps(ln["p"], sort_keys=True), tuple(ln["e"])))
+    opwv(ctx, ["record", "fk", ctx.path("fk.trace")])
+    viols, done = trace_validate(ctx, "Trace_Chain", ctx.path("fk.trace"))
+    viols_to_ctx(ctx, viols, ctx.path("fk.trace"), "C03", key=lambda e: e.get("class", ""))
+    ev = read_ndjson(ctx.path("fk.trace"))
+    ctx.evaluations += len(ev)
+    ctx.sample(ev[1])
+    ctx.exhaustive = True
+    return finish(ctx, rule="every chain of six lattice angles (Angles^6) x parameter sets PSets generated by TLC action by "
+                  "action with exact link poses (Gen_Chain), each replayed under several sign/offset/whole-turn conventions "
+                  "into forward and forward_with_joint_poses (tolerance 1e-9); non-trivial = chains with >= 3 generic "
+                  "(non quarter-turn) joints; plus random real robots judged by Trace_Chain from oracle facts",
+                  assumptions=["agreement on the lattice pins every coefficient because each FK entry is multilinear in "
+                               "(sin q_i, cos q_i)", "the float oracle (harness/src/oracle.rs) is itself replayed against "
+                               "the exact TLA+ chain in the same run (signature chain:ORACLE:*)"])
